@@ -1,6 +1,7 @@
 use crate::proto::Driver;
 use crate::{run_op, OpResult, RunCfg};
 
+pub mod authurl;
 pub mod common;
 pub mod poll;
 pub mod req;
@@ -8,6 +9,7 @@ pub mod req;
 pub fn dispatch(op: &str, cfg: &RunCfg, d: &mut Driver) -> Option<OpResult> {
     Some(match op {
         "req" => run_op::<req::ReqCase>(cfg, d),
+        "authurl" => run_op::<authurl::AuthUrlCase>(cfg, d),
         "poll" => run_op::<poll::PollCase>(cfg, d),
         _ => return None,
     })
